@@ -1,0 +1,30 @@
+//go:build verif
+
+package state
+
+// Contracts for the deductive verifier in /verif (govc). Comments only; build tag "verif".
+
+// C19: contract on the declaration of the module's RPC API. Every method carries one of the four
+// permission levels and is at least as restricted as the policy below, which is written from the
+// property text (everything that moves funds or submits a transaction needs write). The table is closed: a method without a policy entry is an undischarged
+// obligation.
+//@ permtable API
+//@   property C19
+//@   closed
+//@   require Transfer write
+//@   require SubmitPayForBlob write
+//@   require CancelUnbondingDelegation write
+//@   require BeginRedelegate write
+//@   require Undelegate write
+//@   require Delegate write
+//@   require WithdrawDelegatorReward write
+//@   require GrantFee write
+//@   require RevokeGrantFee write
+//@   require AccountAddress public
+//@   require Balance public
+//@   require BalanceForAddress public
+//@   require QueryDelegationRewards public
+//@   require QueryDelegation public
+//@   require QueryUnbonding public
+//@   require QueryRedelegations public
+//@ end
